@@ -145,7 +145,7 @@ func c01(r *core.Run) {
 	// ---- H1 ----------------------------------------------------------------
 	c01Restart(r, "H1", a, root)
 	// ---- F1/F2 -------------------------------------------------------------
-	c01Funnel(r, a, root)
+	c01Funnel(r, "F1", a, root)
 	// ---- F3 (shared with C06.R4) --------------------------------------------
 	if ro := resolveMuxRolesFor(r, "F3"); ro != nil {
 		c06MatchAssembly(r, "F3", root, ro)
@@ -910,16 +910,16 @@ func workerOnly(fn *ssa.Function, a *svcAnchors, root []*ssa.Function, seen map[
 	return true, ""
 }
 
-func c01Funnel(r *core.Run, a *svcAnchors, root []*ssa.Function) {
+func c01Funnel(r *core.Run, rule string, a *svcAnchors, root []*ssa.Function) {
 	p := r.P
 	// drain <- workerLoop only
 	for _, c := range callsTo(root, a.Drain) {
 		if a.Drain == a.Worker {
 			// the drain loop is written out in the worker loop; who starts workers is judged by C03.S4
-			r.OK("F1", core.FuncName(c.Parent()), "calls-drain", p.InstrPos(c), "the drain loop is part of the worker loop")
+			r.OK(rule, core.FuncName(c.Parent()), "calls-drain", p.InstrPos(c), "the drain loop is part of the worker loop")
 			continue
 		}
-		r.Check(c.Parent() == a.Worker && !core.IsGo(c), "F1", core.FuncName(c.Parent()), "calls-drain", p.InstrPos(c), "drain is called from the worker loop", "drain is called from outside the worker loop")
+		r.Check(c.Parent() == a.Worker && !core.IsGo(c), rule, core.FuncName(c.Parent()), "calls-drain", p.InstrPos(c), "drain is called from the worker loop", "drain is called from outside the worker loop")
 	}
 	// closures stored into Handler fields are handler wrappers (GetModel/GetCollection)
 	handlerWrapper := func(fn *ssa.Function) bool {
@@ -960,9 +960,9 @@ func c01Funnel(r *core.Run, a *svcAnchors, root []*ssa.Function) {
 			construct := "callback-call:" + kind
 			switch {
 			case core.IsGo(c):
-				r.Bad("F1", fname, construct, p.InstrPos(c), "callback started on its own goroutine: it escapes per-group serialisation")
+				r.Bad(rule, fname, construct, p.InstrPos(c), "callback started on its own goroutine: it escapes per-group serialisation")
 			case handlerWrapper(fn):
-				r.ExemptObl("F1", fname, construct, p.InstrPos(c), "typed-handler wrapper closure stored in Handler.Get: it is itself invoked as a handler by the dispatcher")
+				r.ExemptObl(rule, fname, construct, p.InstrPos(c), "typed-handler wrapper closure stored in Handler.Get: it is itself invoked as a handler by the dispatcher")
 			case fn.Name() == "QueryEvent" && strings.Contains(kind, "QueryRequest"):
 				// failed-subscribe edge: must be on the subscription-error edge
 				onErr := false
@@ -972,15 +972,15 @@ func c01Funnel(r *core.Run, a *svcAnchors, root []*ssa.Function) {
 					}
 				}
 				if onErr {
-					r.ExemptObl("F1", fname, construct, p.InstrPos(c), "documented: on a failed subscribe the callback is invoked with nil directly, on the caller's goroutine (the caller is already inside the group's callback)")
+					r.ExemptObl(rule, fname, construct, p.InstrPos(c), "documented: on a failed subscribe the callback is invoked with nil directly, on the caller's goroutine (the caller is already inside the group's callback)")
 				} else {
-					r.Bad("F1", fname, construct, p.InstrPos(c), "query callback invoked directly outside the failed-subscribe edge")
+					r.Bad(rule, fname, construct, p.InstrPos(c), "query callback invoked directly outside the failed-subscribe edge")
 				}
 			case fn.Signature.Recv() != nil && core.TypeName(fn.Signature.Recv().Type()) == "getRequest":
-				r.ExemptObl("F1", fname, construct, p.InstrPos(c), "nested Value(): the get handler runs synchronously inside the calling callback (documented: only call from the resource's group)")
+				r.ExemptObl(rule, fname, construct, p.InstrPos(c), "nested Value(): the get handler runs synchronously inside the calling callback (documented: only call from the resource's group)")
 			default:
 				ok, why := workerOnly(fn, a, root, map[*ssa.Function]bool{})
-				r.Check(ok, "F1", fname, construct, p.InstrPos(c), "reachable only through a closure handed to enqueue / the drain loop", "callback can run outside the per-group queue: "+why)
+				r.Check(ok, rule, fname, construct, p.InstrPos(c), "reachable only through a closure handed to enqueue / the drain loop", "callback can run outside the per-group queue: "+why)
 			}
 		}
 	}
@@ -1000,7 +1000,7 @@ func c01Funnel(r *core.Run, a *svcAnchors, root []*ssa.Function) {
 				}
 			}
 		}
-		r.Check(reach, "F1", core.FuncName(fn), "reaches-enqueue", p.Pos(fn.Pos()), "the API entry point submits through enqueue", "the API entry point never calls enqueue")
+		r.Check(reach, rule, core.FuncName(fn), "reaches-enqueue", p.Pos(fn.Pos()), "the API entry point submits through enqueue", "the API entry point never calls enqueue")
 	}
 }
 
@@ -1055,6 +1055,12 @@ func c01GroupArg(r *core.Run, a *svcAnchors, root []*ssa.Function) {
 		}
 		r.Check(good, "F2", core.FuncName(ac.Fn), "store(Match.Group)<-regHandler.group.toString", p.InstrPos(st), "Match.Group is the registered group template evaluated on the name", "Match.Group written from "+valDesc(st.Val))
 	}
+	c01ParallelGroup(r, "F2")
+}
+
+// c01ParallelGroup: registration gives a Parallel handler the empty group and parses the template otherwise (C01.F2; shared with C06.R8).
+func c01ParallelGroup(r *core.Run, rule string) {
+	p := r.P
 	// AddHandler: empty (non-nil) group iff Parallel, else parseGroup(h.Group, pattern)
 	for _, fn := range methodsOf(p, "", "Mux") {
 		if fn.Name() != "AddHandler" {
@@ -1079,7 +1085,7 @@ func c01GroupArg(r *core.Run, a *svcAnchors, root []*ssa.Function) {
 			}
 		}
 		if parse == nil {
-			r.Bad("F2", core.FuncName(fn), "parseGroup-unless-Parallel", p.Pos(fn.Pos()), "registration does not parse the group template")
+			r.Bad(rule, core.FuncName(fn), "parseGroup-unless-Parallel", p.Pos(fn.Pos()), "registration does not parse the group template")
 			continue
 		}
 		okPar := false
@@ -1089,7 +1095,7 @@ func c01GroupArg(r *core.Run, a *svcAnchors, root []*ssa.Function) {
 			}
 		}
 		gf, ok := core.LoadedField(parse.Common().Args[0])
-		r.Check(okPar && ok && gf == core.Field{Struct: "Handler", Name: "Group"}, "F2", core.FuncName(fn), "parseGroup-unless-Parallel", p.InstrPos(parse),
+		r.Check(okPar && ok && gf == core.Field{Struct: "Handler", Name: "Group"}, rule, core.FuncName(fn), "parseGroup-unless-Parallel", p.InstrPos(parse),
 			"group template parsed from Handler.Group on the !Parallel edge", "group parsing is not conditioned on !Parallel or does not read Handler.Group")
 	}
 }
